@@ -1209,6 +1209,8 @@ func (f *Frame) contractCallSig(instr ssa.Instruction, key string, sig *types.Si
 	e := f.E
 	if fc.Trusted {
 		e.Trusted["contract of "+key+" (trusted, not verified here)"] = true
+	} else if fc.IsIface {
+		e.Trusted["interface contract of "+key+" (assumed of every implementer, not verified against them)"] = true
 	} else {
 		e.Assumes["contract of "+key+" (verified separately against its own body)"] = true
 	}
